@@ -3,6 +3,7 @@ import ast
 import re
 
 from ..core import AnalysisError
+from ..formula import Undecided
 from ..pyfront import Mod, dotted, const_value, walk_no_nested
 
 EXPLANATION = (
@@ -390,6 +391,15 @@ def run(rep):
                         if not finite:
                             okfl = False
                             det = f"np.clip(.., {_show(cl[2][1])[:40]}, {_show(cl[2][2])[:40]}) with a bound that may be infinite"
+        # the stored array has the grid's declared type on every path: the header written by save() takes type and byte order from
+        # self.dtype, so an array kept as read (big-endian file, caller's dtype) is dumped with bytes the header does not describe
+        untyped = []
+        for p_, e in sts:
+            for wc, alt in pq.split_where(e.val):
+                if not (pq.call_named(alt, "astype") and len(alt[2]) == 2 and pq.same(alt[2][1], "self.dtype")):
+                    untyped.append((p_, alt))
+        rep.check(bool(sts) and not untyped, "R13.d", rel, nm, "the stored array is converted to the grid's declared dtype (native byte order) on every path",
+                  f"{len(untyped)} path(s) store the array as it arrived: {_show(untyped[0][1])[:100]}" if untyped else "", line=fdef.lineno, firm=True)
         rep.check(okfl, "R13.d", rel, nm, "cell values are clipped against finite bounds only (np.clip with an infinite bound turns an integer raster into float64: values beyond 2^53 change)",
                   det if not okfl else "", line=fdef.lineno)
 
@@ -443,6 +453,21 @@ def run(rep):
         else:
             rep.check(not lossy, "R13.b", rel, f"{cls}.from_dict", "no-data value restored without a float conversion (integers beyond 2^53 survive)",
                       f"{sorted(set(lossy))[:2]}", line=fd.lineno, firm=True)
+        # a restored value is not tested for truth: 0 is a legitimate cell number / count / coordinate, and `if dic[key]:` drops it
+        try:
+            tguards = []
+            for p_ in pq.PEval().run(fd):
+                for e in p_.effects:
+                    if e.kind != 'attr':
+                        continue
+                    for c_, t_ in e.conds:
+                        if t_ and (pq.call_named(c_, "getitem") or pq.call_named(c_, ".get")) and len(c_[2]) >= 2 and c_[2][0] == ('sym', 'dic') and \
+                                pq.mentions(e.val, lambda y: y == c_):
+                            tguards.append(f"{e.target} <- {_show(c_)[:40]}")
+            rep.check(not tguards, "R13.b", rel, f"{cls}.from_dict", "no restored value is guarded by its own truth value (zero is a value, not an absence)",
+                      f"{sorted(set(tguards))[:2]}: a stored 0 (cell 0, the top-left cell) is not restored", line=fd.lineno, firm=True)
+        except Undecided as ex:
+            rep.undecided("R13.b", rel, f"{cls}.from_dict", "no restored value is guarded by its own truth value", str(ex), line=fd.lineno)
         rep.check(rkeys <= set(wkeys), "R13.b", rel, f"{cls}.from_dict", "keys read are written by to_dict",
                   f"read but not written: {sorted(rkeys - set(wkeys))}", line=fd.lineno)
         rep.check(set(wkeys) <= rkeys, "R13.b", rel, f"{cls}.to_dict", "keys written are restored by from_dict",
